@@ -57,6 +57,7 @@ func runC17(r *fw.Run, p *fw.Program) {
 	c17Flags(m)
 	c17OptEval(m)
 	c17Go(m)
+	c17Open(m)
 }
 
 // ---------------------------------------------------------------------------
